@@ -427,3 +427,373 @@ Proof.
   - rewrite !load_u8_in by (rewrite ?buf_len_upd; lia). rewrite byte_at_upd_neq by lia. reflexivity.
   - rewrite !load_u8_oob; rewrite ?buf_len_upd; auto; lia.
 Qed.
+
+(* ---- multi-byte pixels ------------------------------------------------------------------------------------ *)
+Definition len_ok (buf : list Z) : Prop := 8 * buf_len buf <= usize_max.
+
+Lemma firstn_skipn_map (buf : list Z) s n :
+  (s + n <= length buf)%nat -> firstn n (skipn s buf) = map (fun k => nth (s + k) buf 0) (seq 0 n).
+Proof.
+  revert s. induction n as [|n IH]; intros s H; [reflexivity|].
+  cbn [seq map]. rewrite <- seq_shift, map_map.
+  assert (E : skipn s buf = nth s buf 0 :: skipn (Datatypes.S s) buf).
+  { clear IH. revert s H. induction buf as [|x buf IHb]; intros [|s] H; cbn [length] in H; try lia.
+    - reflexivity.
+    - cbn [skipn nth]. apply IHb. lia. }
+  rewrite E. cbn [firstn]. rewrite Nat.add_0_r. f_equal.
+  rewrite IH by lia. apply map_ext. intros k. f_equal. lia.
+Qed.
+
+Lemma multi_nbytes t : multi_byte t -> 2 <= nbytes t <= 4 /\ bits t = 8 * nbytes t.
+Proof. intros [->|[->| ->]]; cbv; repeat split; congruence. Qed.
+
+Lemma multi_total t len i : multi_byte t -> 0 <= i -> 0 <= len ->
+  (i < pixels_total t len <-> (i + 1) * nbytes t <= len).
+Proof. intros [->|[->| ->]] Hi Hl; unfold pixels_total, nbytes; cbn; lia. Qed.
+
+Definition pixel_bytes (t : rawty) (buf : list Z) (i : Z) : list Z :=
+  map (fun k => byte_at buf (i * nbytes t + k)) (range 0 (nbytes t)).
+
+Lemma range_from_seq a n : range_from a n = map (fun k => a + Z.of_nat k) (seq 0 n).
+Proof.
+  revert a; induction n; intros a; [reflexivity|]. cbn [range_from seq map]. f_equal. { lia. }
+  rewrite IHn, <- seq_shift, map_map. apply map_ext. intros; lia.
+Qed.
+
+Lemma gpb_in t buf i :
+  multi_byte t -> 0 <= i -> (i + 1) * nbytes t <= buf_len buf -> buf_len buf <= usize_max ->
+  get_pixel_bytes t buf i = Some (pixel_bytes t buf i).
+Proof.
+  intros Mt Hi Hr Hl. destruct (multi_nbytes t Mt) as [Hn _].
+  unfold get_pixel_bytes, checked_mul_usize.
+  replace (i * nbytes t <=? usize_max) with true by nia.
+  unfold get_from. replace (i * nbytes t <=? buf_len buf) with true by nia.
+  unfold get_prefix. unfold buf_len in *. rewrite skipn_length.
+  replace (nbytes t <=? _) with true by nia.
+  rewrite firstn_skipn_map by nia. unfold pixel_bytes, range. rewrite range_from_seq, map_map.
+  f_equal. replace (Z.to_nat (nbytes t - 0)) with (Z.to_nat (nbytes t)) by (f_equal; lia).
+  apply map_ext. intros k. unfold byte_at. f_equal. nia.
+Qed.
+
+Lemma gpb_oob t buf i :
+  multi_byte t -> 0 <= i -> buf_len buf < (i + 1) * nbytes t -> get_pixel_bytes t buf i = None.
+Proof.
+  intros Mt Hi Hr. destruct (multi_nbytes t Mt) as [Hn _].
+  unfold get_pixel_bytes, checked_mul_usize.
+  destruct (i * nbytes t <=? usize_max); [|reflexivity].
+  unfold get_from. destruct (i * nbytes t <=? buf_len buf) eqn:E; [|reflexivity].
+  unfold get_prefix. unfold buf_len in *. rewrite skipn_length.
+  replace (nbytes t <=? _) with false by nia. reflexivity.
+Qed.
+
+Lemma load_multi_eq t alt buf i : multi_byte t -> load t alt buf i = load_bytes t alt buf i.
+Proof. intros [->|[->| ->]]; reflexivity. Qed.
+Lemma store_multi_eq t alt v buf i : multi_byte t -> store t alt v buf i = store_bytes t alt v buf i.
+Proof. intros [->|[->| ->]]; reflexivity. Qed.
+
+Lemma load_multi_in t alt buf i :
+  multi_byte t -> buf_len buf <= usize_max -> 0 <= i < pixels_total t (buf_len buf) ->
+  load t alt buf i = Some (decode_bytes t alt (pixel_bytes t buf i)).
+Proof.
+  intros Mt Hl Hi. rewrite load_multi_eq by auto. unfold load_bytes.
+  rewrite gpb_in; auto; try lia. apply multi_total; auto; try lia. apply buf_len_nonneg.
+Qed.
+
+Lemma load_multi_oob t alt buf i :
+  multi_byte t -> 0 <= i -> pixels_total t (buf_len buf) <= i -> load t alt buf i = None.
+Proof.
+  intros Mt Hi Ho. rewrite load_multi_eq by auto. unfold load_bytes.
+  rewrite gpb_oob; auto. pose proof (multi_total t (buf_len buf) i Mt Hi (buf_len_nonneg buf)). lia.
+Qed.
+
+Lemma store_multi_in t alt v buf i :
+  multi_byte t -> buf_len buf <= usize_max -> 0 <= i < pixels_total t (buf_len buf) ->
+  store t alt v buf i = (splice buf (i * nbytes t) (encode_bytes t alt v), true).
+Proof.
+  intros Mt Hl Hi. rewrite store_multi_eq by auto. unfold store_bytes.
+  rewrite gpb_in; auto; try lia. apply multi_total; auto; try lia. apply buf_len_nonneg.
+Qed.
+
+Lemma store_multi_oob t alt v buf i :
+  multi_byte t -> 0 <= i -> pixels_total t (buf_len buf) <= i -> store t alt v buf i = (buf, false).
+Proof.
+  intros Mt Hi Ho. rewrite store_multi_eq by auto. unfold store_bytes.
+  rewrite gpb_oob; auto. pose proof (multi_total t (buf_len buf) i Mt Hi (buf_len_nonneg buf)). lia.
+Qed.
+
+(* encode / decode *)
+Lemma length_to_le n v : length (to_le n v) = n.
+Proof. revert v; induction n; intros; cbn [to_le length]; auto. Qed.
+
+Lemma length_encode t alt v : multi_byte t -> Z.of_nat (length (encode_bytes t alt v)) = nbytes t.
+Proof. intros [->|[->| ->]]; destruct alt; reflexivity. Qed.
+
+Lemma to_le_ok n v : bytes_ok (to_le n v).
+Proof.
+  unfold bytes_ok. revert v; induction n; intros; cbn [to_le]; constructor; auto.
+  apply Z.mod_pos_bound. lia.
+Qed.
+
+Ltac nb := change (nbytes U16) with 2 in *; change (nbytes U24) with 3 in *; change (nbytes U32) with 4 in *;
+           change (Z.to_nat 2) with 2%nat in *; change (Z.to_nat 3) with 3%nat in *; change (Z.to_nat 4) with 4%nat in *.
+
+Lemma bytes_ok_encode t alt v : multi_byte t -> bytes_ok (encode_bytes t alt v).
+Proof.
+  intros Mt. unfold bytes_ok.
+  destruct Mt as [->|[->| ->]]; destruct alt; unfold encode_bytes, to_be; nb;
+    cbn [to_le rev app skipn firstn]; repeat constructor; try (apply Z.mod_pos_bound; lia).
+Qed.
+
+Lemma buf_len_splice buf s bytes :
+  0 <= s -> s + Z.of_nat (length bytes) <= buf_len buf -> buf_len (splice buf s bytes) = buf_len buf.
+Proof.
+  intros Hs H. unfold buf_len in *. f_equal.
+  replace s with (Z.of_nat (Z.to_nat s)) by lia. apply length_splice. lia.
+Qed.
+
+Lemma byte_at_splice buf s bytes k :
+  0 <= s -> 0 <= k -> s + Z.of_nat (length bytes) <= buf_len buf ->
+  byte_at (splice buf s bytes) k =
+  if k <? s then byte_at buf k
+  else if k <? s + Z.of_nat (length bytes) then nth (Z.to_nat (k - s)) bytes 0 else byte_at buf k.
+Proof.
+  intros Hs Hk H. unfold byte_at. rewrite !nth_via_error.
+  replace (splice buf s bytes) with (splice buf (Z.of_nat (Z.to_nat s)) bytes) by (rewrite Z2Nat.id; auto).
+  unfold buf_len in H. rewrite nth_error_splice by lia.
+  destruct (k <? s) eqn:E1.
+  - replace (Z.to_nat k <? Z.to_nat s)%nat with true by lia. reflexivity.
+  - replace (Z.to_nat k <? Z.to_nat s)%nat with false by lia.
+    destruct (k <? s + Z.of_nat (length bytes)) eqn:E2.
+    + replace (Z.to_nat k <? Z.to_nat s + length bytes)%nat with true by lia.
+      replace (Z.to_nat (k - s)) with (Z.to_nat k - Z.to_nat s)%nat by lia. reflexivity.
+    + replace (Z.to_nat k <? Z.to_nat s + length bytes)%nat with false by lia. reflexivity.
+Qed.
+
+Lemma firstn_In_local {A} (l : list A) n x : In x (firstn n l) -> In x l.
+Proof. revert n; induction l; intros [|n]; cbn [firstn In]; try tauto. intros [H|H]; eauto. Qed.
+Lemma skipn_In_local {A} (l : list A) n x : In x (skipn n l) -> In x l.
+Proof. revert n; induction l; intros [|n]; cbn [skipn In]; try tauto. intros H; eauto. Qed.
+
+Lemma bytes_ok_splice buf s bytes : bytes_ok buf -> bytes_ok bytes -> bytes_ok (splice buf s bytes).
+Proof.
+  unfold bytes_ok, splice. intros H1 H2. rewrite Forall_forall in *. intros x Hx.
+  apply in_app_or in Hx. destruct Hx as [Hx|Hx].
+  - apply H1. eapply firstn_In_local; eauto.
+  - apply in_app_or in Hx. destruct Hx as [Hx|Hx]; auto. apply H1. eapply skipn_In_local; eauto.
+Qed.
+
+Lemma pixel_bytes_eq t buf i :
+  0 <= i -> 0 <= nbytes t -> (i + 1) * nbytes t <= buf_len buf ->
+  firstn (Z.to_nat (nbytes t)) (skipn (Z.to_nat (i * nbytes t)) buf) = pixel_bytes t buf i.
+Proof.
+  intros Hi Hn Hr. unfold buf_len in Hr.
+  rewrite firstn_skipn_map by nia. unfold pixel_bytes, range. rewrite range_from_seq, map_map.
+  replace (Z.to_nat (nbytes t - 0)) with (Z.to_nat (nbytes t)) by (f_equal; lia).
+  apply map_ext. intros k. unfold byte_at. f_equal. nia.
+Qed.
+
+Lemma pixel_bytes_splice_same t buf i bytes :
+  0 <= i -> Z.of_nat (length bytes) = nbytes t -> (i + 1) * nbytes t <= buf_len buf ->
+  pixel_bytes t (splice buf (i * nbytes t) bytes) i = bytes.
+Proof.
+  intros Hi Hn Hr.
+  rewrite <- pixel_bytes_eq by (try rewrite buf_len_splice; nia).
+  unfold splice. unfold buf_len in Hr.
+  rewrite skipn_app. rewrite skipn_all2 by (rewrite firstn_length; lia).
+  rewrite firstn_length. replace (_ - _)%nat with O by nia. cbn [skipn app].
+  rewrite firstn_app. replace (Z.to_nat (nbytes t)) with (length bytes) by lia.
+  rewrite firstn_all, Nat.sub_diag. cbn [firstn]. apply app_nil_r.
+Qed.
+
+Lemma pixel_bytes_splice_other t buf i j bytes :
+  0 <= i -> 0 <= j -> j <> i -> Z.of_nat (length bytes) = nbytes t ->
+  (i + 1) * nbytes t <= buf_len buf ->
+  pixel_bytes t (splice buf (i * nbytes t) bytes) j = pixel_bytes t buf j.
+Proof.
+  intros Hi Hj N Hn Hr. unfold pixel_bytes. apply map_ext_in. intros k Hk. apply In_range in Hk.
+  rewrite byte_at_splice by nia.
+  destruct (Z_lt_ge_dec j i).
+  - replace (j * nbytes t + k <? i * nbytes t) with true by nia. reflexivity.
+  - replace (j * nbytes t + k <? i * nbytes t) with false by nia.
+    replace (j * nbytes t + k <? i * nbytes t + _) with false by nia. reflexivity.
+Qed.
+
+Lemma decode_encode t alt v : multi_byte t -> raw_ok t v -> decode_bytes t alt (encode_bytes t alt v) = v.
+Proof.
+  unfold raw_ok. intros [->|[->| ->]] Hv; destruct alt;
+    unfold decode_bytes, encode_bytes, to_be, from_be; nb; cbn [to_le rev app skipn firstn fold_right from_le];
+    rewrite ?raw_new_mod; cbn [bits] in *; lia.
+Qed.
+
+Lemma multi_load_store t alt v buf i :
+  multi_byte t -> bytes_ok buf -> buf_len buf <= usize_max -> raw_ok t v ->
+  0 <= i < pixels_total t (buf_len buf) ->
+  exists buf', store t alt v buf i = (buf', true) /\ load t alt buf' i = Some v /\
+               buf_len buf' = buf_len buf /\ bytes_ok buf'.
+Proof.
+  intros Mt Hb Hl Hv Hi. destruct (multi_nbytes t Mt) as [Hn _].
+  pose proof (proj1 (multi_total t (buf_len buf) i Mt (proj1 Hi) (buf_len_nonneg buf)) (proj2 Hi)) as Hr.
+  pose proof (length_encode t alt v Mt) as Le.
+  rewrite store_multi_in by auto. eexists; split; [reflexivity|].
+  assert (BL : buf_len (splice buf (i * nbytes t) (encode_bytes t alt v)) = buf_len buf)
+    by (apply buf_len_splice; nia).
+  split; [|split]; auto.
+  - rewrite load_multi_in by (auto; rewrite BL; auto).
+    rewrite pixel_bytes_splice_same by (auto; lia). rewrite decode_encode; auto.
+  - apply bytes_ok_splice; auto. apply bytes_ok_encode; auto.
+Qed.
+
+Lemma multi_store_frame t alt v buf i j :
+  multi_byte t -> buf_len buf <= usize_max -> 0 <= i < pixels_total t (buf_len buf) -> 0 <= j -> j <> i ->
+  load t alt (fst (store t alt v buf i)) j = load t alt buf j.
+Proof.
+  intros Mt Hl Hi Hj N. destruct (multi_nbytes t Mt) as [Hn _].
+  pose proof (proj1 (multi_total t (buf_len buf) i Mt (proj1 Hi) (buf_len_nonneg buf)) (proj2 Hi)) as Hr.
+  pose proof (length_encode t alt v Mt) as Le.
+  rewrite store_multi_in by auto. cbn [fst].
+  assert (BL : buf_len (splice buf (i * nbytes t) (encode_bytes t alt v)) = buf_len buf)
+    by (apply buf_len_splice; nia).
+  destruct (Z_lt_ge_dec j (pixels_total t (buf_len buf))).
+  - rewrite !load_multi_in by (auto; rewrite ?BL; auto).
+    rewrite pixel_bytes_splice_other by (auto; lia). reflexivity.
+  - rewrite !load_multi_oob; auto; rewrite ?BL; lia.
+Qed.
+
+(* ======================================================================================================
+   The C11 statements, for every raw type and both data orders
+   ====================================================================================================== *)
+Lemma len_ok_usize buf : len_ok buf -> buf_len buf <= usize_max.
+Proof. unfold len_ok. pose proof (buf_len_nonneg buf). lia. Qed.
+
+Lemma load_store t alt v buf i :
+  bytes_ok buf -> len_ok buf -> raw_ok t v -> 0 <= i < pixels_total t (buf_len buf) ->
+  exists buf', store t alt v buf i = (buf', true) /\ load t alt buf' i = Some v /\
+               buf_len buf' = buf_len buf /\ bytes_ok buf'.
+Proof.
+  intros Hb Hl Hv Hi. apply len_ok_usize in Hl.
+  destruct (rawty_cases t) as [St|[->|Mt]].
+  - apply sub_load_store; auto.
+  - apply u8_load_store; auto.
+  - apply multi_load_store; auto.
+Qed.
+
+Lemma store_frame t alt v buf i j :
+  bytes_ok buf -> len_ok buf -> raw_ok t v -> 0 <= i < pixels_total t (buf_len buf) -> 0 <= j -> j <> i ->
+  load t alt (fst (store t alt v buf i)) j = load t alt buf j.
+Proof.
+  intros Hb Hl Hv Hi Hj N. apply len_ok_usize in Hl.
+  destruct (rawty_cases t) as [St|[->|Mt]].
+  - apply sub_store_frame; auto.
+  - apply u8_store_frame; auto.
+  - apply multi_store_frame; auto.
+Qed.
+
+(* out of range: for EVERY index (also those whose byte offset leaves usize) and every buffer *)
+Lemma load_oob t alt buf i : 0 <= i -> pixels_total t (buf_len buf) <= i -> load t alt buf i = None.
+Proof.
+  intros Hi Ho. destruct (rawty_cases t) as [St|[->|Mt]].
+  - apply load_sub_oob; auto.
+  - rewrite u8_total in Ho. apply load_u8_oob; auto.
+  - apply load_multi_oob; auto.
+Qed.
+
+Lemma store_oob t alt v buf i : 0 <= i -> pixels_total t (buf_len buf) <= i -> store t alt v buf i = (buf, false).
+Proof.
+  intros Hi Ho. destruct (rawty_cases t) as [St|[->|Mt]].
+  - apply store_sub_oob; auto.
+  - rewrite u8_total in Ho. apply store_u8_oob; auto.
+  - apply store_multi_oob; auto.
+Qed.
+
+Lemma load_in_range t alt buf i :
+  len_ok buf -> 0 <= i < pixels_total t (buf_len buf) -> exists v, load t alt buf i = Some v.
+Proof.
+  intros Hl Hi. apply len_ok_usize in Hl. destruct (rawty_cases t) as [St|[->|Mt]].
+  - rewrite load_sub_in by auto. eauto.
+  - rewrite u8_total in Hi. rewrite load_u8_in by auto. eauto.
+  - rewrite load_multi_in by auto. eauto.
+Qed.
+
+Lemma load_some_iff t alt buf i :
+  len_ok buf -> 0 <= i -> (load t alt buf i <> None <-> i < pixels_total t (buf_len buf)).
+Proof.
+  intros Hl Hi. split.
+  - intros H. destruct (Z_lt_ge_dec i (pixels_total t (buf_len buf))); auto.
+    exfalso. apply H. apply load_oob; auto; lia.
+  - intros H. destruct (load_in_range t alt buf i Hl (conj Hi H)) as [v ->]. discriminate.
+Qed.
+
+(* ---- documented layouts, as closed forms over the bytes ----------------------------------------------- *)
+(* sub-byte, LittleEndianMsb0: pixel i sits in byte i / ppb, most significant pixel first *)
+Lemma layout_msb0 t buf i :
+  sub_byte t -> bytes_ok buf -> 0 <= i < pixels_total t (buf_len buf) ->
+  load t false buf i =
+  Some ((byte_at buf (i / ppb t) / 2 ^ (8 - (i mod ppb t + 1) * bits t)) mod 2 ^ bits t).
+Proof.
+  intros St Hb Hi.
+  destruct (sub_total t (buf_len buf) i St (proj1 Hi) (buf_len_nonneg buf)) as (T & M & D).
+  rewrite load_sub_in by auto.
+  pose proof (sb_load t false (i mod ppb t) (byte_at buf (i / ppb t)) St M (byte_at_ok _ _ Hb)) as S.
+  cbv zeta in S. destruct S as (S1 & S2 & _). rewrite S1, S2. reflexivity.
+Qed.
+
+(* sub-byte, BigEndianLsb0: least significant pixel first *)
+Lemma layout_lsb0 t buf i :
+  sub_byte t -> bytes_ok buf -> 0 <= i < pixels_total t (buf_len buf) ->
+  load t true buf i =
+  Some ((byte_at buf (i / ppb t) / 2 ^ ((i mod ppb t) * bits t)) mod 2 ^ bits t).
+Proof.
+  intros St Hb Hi.
+  destruct (sub_total t (buf_len buf) i St (proj1 Hi) (buf_len_nonneg buf)) as (T & M & D).
+  rewrite load_sub_in by auto.
+  pose proof (sb_load t true (i mod ppb t) (byte_at buf (i / ppb t)) St M (byte_at_ok _ _ Hb)) as S.
+  cbv zeta in S. destruct S as (S1 & S2 & _). rewrite S1, S2. reflexivity.
+Qed.
+
+Definition zsum (l : list Z) : Z := fold_right Z.add 0 l.
+(* n bytes from offset s, least significant first / most significant first *)
+Definition le_value (buf : list Z) (s n : Z) : Z := zsum (map (fun k => byte_at buf (s + k) * 256 ^ k) (range 0 n)).
+Definition be_value (buf : list Z) (s n : Z) : Z := zsum (map (fun k => byte_at buf (s + k) * 256 ^ (n - 1 - k)) (range 0 n)).
+
+Definition whole_bytes (t : rawty) : Prop := t = U8 \/ multi_byte t.
+
+Ltac pows := change (256 ^ 0) with 1 in *; change (256 ^ 1) with 256 in *; change (256 ^ 2) with 65536 in *;
+             change (256 ^ 3) with 16777216 in *.
+
+Lemma layout_le t buf i :
+  whole_bytes t -> bytes_ok buf -> len_ok buf -> 0 <= i < pixels_total t (buf_len buf) ->
+  load t false buf i = Some (le_value buf (i * nbytes t) (nbytes t)).
+Proof.
+  intros Wt Hb Hl Hi. apply len_ok_usize in Hl.
+  destruct Wt as [->|Mt].
+  - rewrite u8_total in Hi. rewrite load_u8_in by auto. rewrite raw_new_byte by (apply byte_at_ok; auto).
+    unfold le_value. change (nbytes U8) with 1. change (range 0 1) with [0]. cbn [map zsum fold_right]. pows.
+    f_equal. replace (i * 1 + 0) with i by lia. lia.
+  - rewrite load_multi_in by auto. f_equal. unfold le_value, pixel_bytes.
+    destruct Mt as [->|[->| ->]]; nb;
+      [change (range 0 2) with [0; 1] | change (range 0 3) with [0; 1; 2] | change (range 0 4) with [0; 1; 2; 3]];
+      unfold decode_bytes; cbn [map zsum fold_right from_le app]; rewrite ?raw_new_mod; cbn [bits]; pows;
+      repeat match goal with |- context [byte_at buf ?k] =>
+        let H := fresh in pose proof (byte_at_ok buf k Hb) as H; generalize dependent (byte_at buf k); intros end;
+      lia.
+Qed.
+
+Lemma layout_be t buf i :
+  whole_bytes t -> bytes_ok buf -> len_ok buf -> 0 <= i < pixels_total t (buf_len buf) ->
+  load t true buf i = Some (be_value buf (i * nbytes t) (nbytes t)).
+Proof.
+  intros Wt Hb Hl Hi. apply len_ok_usize in Hl.
+  destruct Wt as [->|Mt].
+  - rewrite u8_total in Hi. rewrite load_u8_in by auto. rewrite raw_new_byte by (apply byte_at_ok; auto).
+    unfold be_value. change (nbytes U8) with 1. change (range 0 1) with [0]. cbn [map zsum fold_right].
+    change (1 - 1 - 0) with 0. pows.
+    f_equal. replace (i * 1 + 0) with i by lia. lia.
+  - rewrite load_multi_in by auto. f_equal. unfold be_value, pixel_bytes.
+    destruct Mt as [->|[->| ->]]; nb;
+      [change (range 0 2) with [0; 1] | change (range 0 3) with [0; 1; 2] | change (range 0 4) with [0; 1; 2; 3]];
+      unfold decode_bytes, from_be; cbn [map zsum fold_right from_le app rev]; rewrite ?raw_new_mod; cbn [bits];
+      repeat match goal with |- context [256 ^ ?e] => let x := eval vm_compute in (256 ^ e) in change (256 ^ e) with x end;
+      repeat match goal with |- context [byte_at buf ?k] =>
+        let H := fresh in pose proof (byte_at_ok buf k Hb) as H; generalize dependent (byte_at buf k); intros end;
+      lia.
+Qed.
